@@ -84,8 +84,11 @@ class MinimizeRecorder:
                 rec.calls.append({"params": pstate(p), "x": np.array(a[0], copy=True),
                                   "y": np.array(a[1], copy=True), "weight_cp": a[2],
                                   "method": kwargs.get("method")})
-            else:
-                rec.other += 1
+                out = rec._orig(*args, **kwargs)
+                # parameter values as returned by the optimiser (before the caller edits them)
+                rec.calls[-1]["result"] = {k: v.value for k, v in out.params.items()}
+                return out
+            rec.other += 1
             return rec._orig(*args, **kwargs)
 
         lmfit.minimize = wrapped
@@ -161,8 +164,14 @@ def st_source(st, synth_kwargs=None, recorded=None, p_recorded=0.2):
     if not pool or p_recorded <= 0:
         return syn
     recs = st.sampled_from(pool).map(lambda ne: {"kind": "recorded", "name": ne[0], "enum": ne[1]})
-    n_syn = max(1, int(round((1 - p_recorded) / p_recorded)))
-    return st.one_of(*([syn] * n_syn + [recs]))
+    n_rec = max(1, int(round(p_recorded * 20)))
+
+    @st.composite
+    def _src(draw):
+        kind = draw(st.sampled_from(["recorded"] * n_rec + ["synth"] * (20 - n_rec)))
+        return draw(recs if kind == "recorded" else syn)
+
+    return _src()
 
 
 def build_source(src, preprocess=True):
